@@ -32,6 +32,7 @@ package drpcmux
 //@   site receiver assert [C10.registered-only] old(haskey(m.rpcs, rpc)) && arg0 == old(m.rpcs[rpc].srv) && arg3 == stream
 //@   site receiver assert [C10.request-kind] (eventCount("invoke:MsgRecv") == 1) == old(m.rpcs[rpc].in1 != streamType)
 //@   site receiver assert [C10.passes-decoded-request] (eventCount("invoke:MsgRecv") == 1 ==> arg2 == dm) && (eventCount("invoke:MsgRecv") == 0 ==> arg2 == stream)
+//@   site (*Class).New#1 assert [C10.unknown-rpc-error-only-for-unknown] !haskey(m.rpcs, rpc)
 //@   check [C10.unknown-rpc-rejected] !old(haskey(m.rpcs, rpc)) ==> err != nil && eventCount("dyn:receiver") == 0 && eventCount("invoke:MsgRecv") == 0
 //@   check [C10.known-rpc-dispatched] old(haskey(m.rpcs, rpc)) && rerr == nil && eventCount("call:(*Class).New") == 0 ==> eventCount("dyn:receiver") == 1
 //@   check [C10.unknown-rpc]      eventCount("dyn:receiver") == 0 && eventCount("invoke:MsgRecv") == 0 ==> err != nil
